@@ -26,6 +26,9 @@ fn h_bitflags_model<S: Src>(s: &mut S) {
     chk!(s, (fa & fb).bits() == (a & b), "bitflags.PictureOption.bitand: bits == a & b");
     chk!(s, (!fa).bits() == (!a & 0x1FFFF), "bitflags.PictureOption.not: bits == !a truncated to the defined flags");
     chk!(s, fa.contains(fb) == (a & b == b), "bitflags.PictureOption.contains: (a & b) == b");
+    let mut acc = fa;
+    acc |= fb;
+    chk!(s, acc.bits() == (a | b), "bitflags.PictureOption.bitor_assign: `x |= y` == `x = x | y` (rewrite rule R12)");
     chk!(s, PictureOption::empty().bits() == 0, "bitflags.PictureOption.empty: no bits");
     chk!(s, PictureOption::UNRESTRICTED_MOTION_VECTORS.bits() == 0b1000 && PictureOption::MODIFIED_QUANTIZATION.bits() == 0x1000 && PictureOption::USE_DEBLOCKER.bits() == 0x10000,
          "bitflags.PictureOption.constants");
